@@ -154,8 +154,16 @@ class Crate:
         self.fns = {}
         self.adts = {}
         self.impls = []
-        rx = re.compile(r'(?<![A-Za-z0-9_])crate::')
+        rx0 = re.compile(r'(?<![A-Za-z0-9_])crate::')
+        # impl<'a> Parser<'a> methods print as `Parser::<'a>::f`: drop lifetime-only generic segments
+        rlt = re.compile(r"::<'\w+(?:, '\w+)*>")
         rep = name + '::'
+
+        class _Rx:
+            @staticmethod
+            def sub(r, line):
+                return rlt.sub('', rx0.sub(r, line))
+        rx = _Rx
         with open(path) as fh:
             head = json.loads(rx.sub(rep, fh.readline()))
             for a in head['adts']:
